@@ -80,6 +80,14 @@ def gen_query(rng):
             fields.append((m, d + ("__" + rng.choice(GRANS) if d == "created" and rng.random() < 0.8 else ""), None))
         for x in rng.sample(mets, rng.randint(0 if fields else 1, len(mets))):
             fields.append((m, x, None))
+    # the same time dimension at a SECOND granularity (and sometimes bare as well): each is its own column
+    tds = [(m, f) for m, f, _ in fields if f.startswith("created__")]
+    if tds and rng.random() < 0.45:
+        m, f = tds[0]
+        g2 = rng.choice([g for g in GRANS if "created__" + g != f])
+        fields.append((m, "created__" + g2, None))
+        if rng.random() < 0.3 and not any(x[1] == "created" for x in fields):
+            fields.append((m, "created", None))
     rng.shuffle(fields)
     if not fields:
         fields = [("orders", "n", None)]
